@@ -73,12 +73,14 @@ func (ch *ConnectionHandler) acceptStream() {
 		var stream net.Conn
 
 		stream, err := ch.session.AcceptStream()
-		if err == os.ErrClosed || err == io.EOF {
+		if err == os.ErrClosed || err == io.EOF || err == io.ErrClosedPipe {
 			log.Debugf("Stream closed, existing loop.")
 			return
 		} else if err != nil {
-			log.WithError(err).Errorf("Error accepting stream: %v", err)
-			continue
+			// No deadline is set on the session, so any error here means the session is dead:
+			// it would be returned again immediately on every further call.
+			log.WithError(err).Errorf("Error accepting stream, session terminated: %v", err)
+			return
 		}
 		stream = streams.NewNamedConnection(stream, stream.RemoteAddr().String())
 		log.Debugf("[Server] New logical connection accepted: %v", stream)
